@@ -182,6 +182,10 @@ func mcOps() []op {
 		w.guest.observe(context.Background(), n.mc)
 		return nil
 	}})
+	ops = append(ops, op{"Instantiate(named-binary)", func(w *world, n *node) *node {
+		w.guest.observeBin(context.Background(), n.mc, true)
+		return nil
+	}})
 	ops = append(ops, op{"Instantiate+sock", func(w *world, n *node) *node {
 		ctx := sock.WithConfig(context.Background(), sock.NewConfig().WithTCPListener("127.0.0.1", 0))
 		w.guest.observe(ctx, n.mc)
@@ -258,8 +262,9 @@ func rcOps() []op {
 
 // ---------------------------------------------------------------- guest observation
 
-var guestBin = func() []byte {
-	m := &wb.Module{}
+// buildGuest builds the observation guest; moduleName != "" adds a name section with that module name.
+func buildGuest(moduleName string) []byte {
+	m := &wb.Module{ModuleName: moduleName}
 	i32 := wb.I32
 	w := "wasi_snapshot_preview1"
 	f1 := m.ImportFunc(w, "args_sizes_get", []byte{i32, i32}, []byte{i32})
@@ -289,12 +294,15 @@ var guestBin = func() []byte {
 	m.ExportFunc("g", m.AddFunc(nil, []byte{i32}, nil, (&wb.Asm{}).GlobalGet(g).B))
 	m.Exports = append(m.Exports, wb.Export{Name: "memory", Kind: wb.KindMemory, Idx: 0})
 	return m.Encode()
-}()
+}
+
+var guestBin, guestBinNamed = buildGuest(""), buildGuest("gm")
 
 type guestRT struct {
-	rt   wazero.Runtime
-	code wazero.CompiledModule
-	buf  []byte // the observation guest's single memory page, reused by this worker (see reuseMem)
+	rt        wazero.Runtime
+	code      wazero.CompiledModule
+	codeNamed wazero.CompiledModule // same guest with module name "gm" in its name section
+	buf       []byte                // the observation guest's single memory page, reused by this worker (see reuseMem)
 }
 
 // reuseMem is a per-worker experimental.MemoryAllocator that hands every observation guest the same
@@ -326,7 +334,11 @@ func newGuestRT() *guestRT {
 	if err != nil {
 		fw.Fatalf("guest module rejected: %v", err)
 	}
-	return &guestRT{rt: rt, code: code}
+	codeNamed, err := rt.CompileModule(ctx, guestBinNamed)
+	if err != nil {
+		fw.Fatalf("named guest module rejected: %v", err)
+	}
+	return &guestRT{rt: rt, code: code, codeNamed: codeNamed}
 }
 
 type observation struct {
@@ -343,8 +355,17 @@ func (o observation) String() string {
 }
 
 func (g *guestRT) observe(ctx context.Context, mc wazero.ModuleConfig) (o observation) {
+	return g.observeBin(ctx, mc, false)
+}
+
+// observeBin instantiates the unnamed or the named ("gm") guest binary with mc and records what it sees.
+func (g *guestRT) observeBin(ctx context.Context, mc wazero.ModuleConfig, named bool) (o observation) {
 	ctx = experimental.WithMemoryAllocator(ctx, reuseMem{g})
-	mod, err := g.rt.InstantiateModule(ctx, g.code, mc)
+	code := g.code
+	if named {
+		code = g.codeNamed
+	}
+	mod, err := g.rt.InstantiateModule(ctx, code, mc)
 	if err != nil {
 		o.Err = err.Error()
 		return
@@ -559,7 +580,15 @@ func (e *explorer) leaf(w *world, path []step) {
 		var got, want string
 		switch e.kind {
 		case "module":
-			got, want = w.guest.observe(context.Background(), n.mc).String(), predictMC(n.model.(mcModel)).String()
+			// first the binary that carries a module name, then the one that does not: a name leaking from the
+			// first instantiation into the configuration would show in the second.
+			mm := n.model.(mcModel)
+			wn := predictMC(mm)
+			if !mm.nameSet {
+				wn.Name = "gm"
+			}
+			got = w.guest.observeBin(context.Background(), n.mc, true).String() + " | " + w.guest.observe(context.Background(), n.mc).String()
+			want = wn.String() + " | " + predictMC(mm).String()
 		case "fs":
 			mm := mcModel{fs: n.model.(*fsModel)}
 			if len(mm.fs.paths) == 0 {
